@@ -21,24 +21,37 @@ rc, o = sh('git -C /repo worktree add -q --detach %s HEAD && cp /repo/go.sum %s/
 assert rc == 0, o
 ran = []
 def place_demo():
-    if ' cp ' in (' ' + meta.get('demo_cmd', '')):
+    import re
+    cmd = meta.get('demo_cmd', '')
+    if re.search(r'(^|[;&\s])cp\s', cmd):
         return   # the command copies the demo into place itself
-    loc = (meta.get('demo_location', '') or '').split(' ')[0].replace('<worktree>/', '').replace('<repo root>/', '').strip('/')
-    if not loc or '<' in loc or '(' in loc:
-        loc = 'demo_seed' 
-    # copy every non-patch, non-meta file/dir of the mutant dir to the demo location
+    locs = [t.strip('`\'"(),') for t in (meta.get('demo_location', '') or '').replace('<worktree>/', '').replace('<repo root>/', '').split()]
+    # main.go demos: directory named in `go run [flags] ./dir`
     if os.path.isdir(os.path.join(mdir, 'demo')):
-        dst = os.path.join(tree, loc if loc and not loc.endswith('.go') else os.path.dirname(loc) or 'demo_seed')
-        if loc.endswith('.go'):
-            dst = os.path.join(tree, os.path.dirname(loc))
+        m = re.search(r'go run(?:\s+-\S+(?:\s+\S+=\S+)?)*\s+(\./[\w./-]+)', cmd)
+        d = m.group(1) if m else next((t for t in locs if '/' in t and not t.startswith('/')), 'demo_seed')
+        if d.endswith('.go'):
+            d = os.path.dirname(d)
+        dst = os.path.join(tree, d.strip('./') or 'demo_seed')
         os.makedirs(dst, exist_ok=True)
         for f in os.listdir(os.path.join(mdir, 'demo')):
             shutil.copy(os.path.join(mdir, 'demo', f), dst)
-    for f in os.listdir(mdir):
-        if f.endswith('_test.go'):
-            dst = os.path.join(tree, loc if not loc.endswith('.go') else os.path.dirname(loc))
-            os.makedirs(dst, exist_ok=True)
-            shutil.copy(os.path.join(mdir, f), dst)
+    tests = [f for f in os.listdir(mdir) if f.endswith('_test.go')]
+    if tests:
+        cand = next((t for t in locs if ('/' in t or t.endswith('.go')) and not t.startswith('/') and t not in tests), None)
+        if cand is None:
+            m = re.search(r'go test.*?\s(\.[\w./-]*)\s*$', cmd.strip())
+            cand = m.group(1) if m else '.'
+        if cand.endswith('.go'):
+            name, d = os.path.basename(cand), os.path.dirname(cand)
+        else:
+            name, d = None, cand
+        dst = os.path.join(tree, d.strip('./') if d.strip('./') else '')
+        os.makedirs(dst, exist_ok=True)
+        for f in tests:
+            shutil.copy(os.path.join(mdir, f), os.path.join(dst, name if (name and len(tests) == 1) else f))
+        ran.append('demo test placed in %s' % (os.path.relpath(dst, tree)))
+
 try:
     place_demo()
 except Exception as e:
